@@ -548,12 +548,14 @@ def to_fpm_and_back_backprop(wavefunction, dx, wavelength, efl, fpm, fpm_dx=None
         fpm_samples = fpm.shape
 
     # do not take complex conjugate of reals (no-op, but numpy still does it)
-    if np.iscomplexobj(fpm.dtype):
+    if np.iscomplexobj(fpm):
         fpm = fpm.conj()
 
-    Ebbar = -unfocus_fixed_sampling_backprop(wavefunction, fpm_dx, efl, wavelength, dx, fpm_samples)
+    # adjoint of each step of to_fpm_and_back, in reverse order, same shifts
+    shift_back = (shift[0] / fpm_dx * dx, shift[1] / fpm_dx * dx)
+    Ebbar = unfocus_fixed_sampling_backprop(wavefunction, fpm_dx, efl, wavelength, dx, fpm_samples, shift=shift_back, method=method)  # NOQA
     intermediate = Ebbar * fpm
-    Eabar = focus_fixed_sampling_backprop(intermediate, dx, efl, wavelength, fpm_dx, wavefunction.shape)
+    Eabar = focus_fixed_sampling_backprop(intermediate, dx, efl, wavelength, fpm_dx, wavefunction.shape, shift=shift, method=method)  # NOQA
     if return_more:
         return Eabar, Ebbar, intermediate
     else:
@@ -1266,5 +1268,5 @@ class Wavefront:
         cbarW = Wavefront(cbar, self.wavelength, self.dx, self.space)
         abar = cbarW.to_fpm_and_back_backprop(efl=efl, fpm=fpm, fpm_dx=fpm_dx, method=method)
 
-        abar.data += cbar
+        abar.data = cbar - abar.data
         return abar
